@@ -17,7 +17,7 @@ use truc::record::definition::builder::native::variant::{append_data, append_dat
 use truc::record::definition::builder::native::NativeRecordDefinitionBuilder;
 use truc::record::definition::{DatumId, NativeDatumDetails, RecordDefinition};
 use truc::record::definition::builder::native::DatumDefinitionOverride;
-use truc::record::type_resolver::{HostTypeResolver, StaticTypeResolver};
+use truc::record::type_resolver::{HostTypeResolver, StaticTypeResolver, TypeResolver};
 
 pub mod glue;
 pub mod stale;
@@ -53,6 +53,10 @@ pub struct Plan {
     pub name: String,
     pub clone: bool,
     pub serde: bool,
+    /// build through a pre-computed type table (`StaticTypeResolver` of the whole catalogue): typed adds are
+    /// resolved by the table, every other field is added by type name with `add_dynamic_datum`
+    #[serde(default, skip_serializing_if = "std::ops::Not::not")]
+    pub table: bool,
     pub reqs: Vec<Req>,
 }
 
@@ -71,11 +75,62 @@ pub struct TypeEntry {
     pub sync: bool,
 }
 
+/// Per catalogue type: the real typed entry points of the builder and of the type table.
+pub trait CatType: Sized + 'static {
+    const COPY: bool;
+    fn add<R: TypeResolver>(b: &mut NativeRecordDefinitionBuilder<R>, name: &str, uninit: bool) -> Result<DatumId, String>;
+    fn register(r: &mut StaticTypeResolver);
+    fn recorded_name() -> String {
+        HostTypeResolver.type_info::<Self>().name
+    }
+}
+
+macro_rules! cat_copy {
+    ($($t:ty),* $(,)?) => {$(
+        impl CatType for $t {
+            const COPY: bool = true;
+            fn add<R: TypeResolver>(b: &mut NativeRecordDefinitionBuilder<R>, name: &str, uninit: bool) -> Result<DatumId, String> {
+                if uninit {
+                    b.add_datum_allow_uninit::<$t, _>(name)
+                } else {
+                    b.add_datum::<$t, _>(name)
+                }
+            }
+            fn register(r: &mut StaticTypeResolver) {
+                r.add_type_allow_uninit::<$t>();
+            }
+        }
+    )*};
+}
+
+macro_rules! cat_own {
+    ($($t:ty),* $(,)?) => {$(
+        impl CatType for $t {
+            const COPY: bool = false;
+            fn add<R: TypeResolver>(b: &mut NativeRecordDefinitionBuilder<R>, name: &str, uninit: bool) -> Result<DatumId, String> {
+                if uninit {
+                    // only SIM-F asks for this (may-be-uninit on a type that is not Copy): the typed entry
+                    // point refuses it at compile time, the override entry point does not
+                    b.add_datum_override::<$t, _>(name, DatumDefinitionOverride { type_name: None, size: None, align: None, allow_uninit: Some(true) })
+                } else {
+                    b.add_datum::<$t, _>(name)
+                }
+            }
+            fn register(r: &mut StaticTypeResolver) {
+                r.add_type::<$t>();
+            }
+        }
+    )*};
+}
+
+cat_copy!(u8, u16, u32, u64, u128, usize, [u8; 3], [u16; 3], [u32; 3], [u64; 3], [u64; 16], Al16, P12, (), [u64; 0]);
+cat_own!(TokA8, TokB8, TokA3, TokA16, TokA64, TokAH, TokAZ, String, Box<str>, Vec<u32>, Box<TokA8>, Option<TokA8>);
+
 macro_rules! catalogue {
     ($( ($key:expr, $t:ty, $path:expr, $copy:expr) ),* $(,)?) => {
         pub fn catalogue() -> Vec<TypeEntry> {
             vec![$( TypeEntry {
-                key: $key, path: $path, copy: $copy,
+                key: $key, path: $path, copy: <$t as CatType>::COPY,
                 tracked: <$t as Val>::TRACKED, zst: <$t as Val>::ZST,
                 counted_class: if <$t as Val>::COUNTED { <$t as Val>::CLASS } else { 0 },
                 size: std::mem::size_of::<$t>(), align: std::mem::align_of::<$t>(),
@@ -83,11 +138,20 @@ macro_rules! catalogue {
             } ),*]
         }
 
-        fn add_typed(b: &mut NativeRecordDefinitionBuilder<HostTypeResolver>, key: &str, name: &str, uninit: bool) -> Result<DatumId, String> {
+        fn add_typed<R: TypeResolver>(b: &mut NativeRecordDefinitionBuilder<R>, key: &str, name: &str, uninit: bool) -> Result<DatumId, String> {
             $( if key == $key {
-                return add_one::<$t>(b, name, uninit, $copy);
+                let _: bool = $copy;
+                return <$t as CatType>::add(b, name, uninit);
             } )*
             Err(format!("unknown catalogue type {}", key))
+        }
+
+        /// the name truc records for a catalogue type (what `add_dynamic_datum` is asked for)
+        pub fn recorded_type_name(key: &str) -> String {
+            $( if key == $key {
+                return <$t as CatType>::recorded_name();
+            } )*
+            panic!("unknown catalogue type {}", key)
         }
 
         /// typed entry point with explicit overrides (SIM-F: stale size / alignment / may-be-uninit flag)
@@ -99,33 +163,13 @@ macro_rules! catalogue {
         }
 
         /// a pre-computed type table of the whole catalogue, as a cross-compiling user would produce it
+        /// (Copy types registered through `add_type_allow_uninit`)
         pub fn catalogue_table() -> StaticTypeResolver {
             let mut r = StaticTypeResolver::new();
-            $( register::<$t>(&mut r, $copy); )*
+            $( <$t as CatType>::register(&mut r); )*
             r
         }
     };
-}
-
-fn register<T: 'static>(r: &mut StaticTypeResolver, copy: bool) {
-    // `add_type_allow_uninit` needs `T: Copy` at the call site: register, then set the flag through
-    // the table's own JSON form
-    let _ = copy;
-    r.add_type::<T>();
-}
-
-fn add_one<T: 'static>(b: &mut NativeRecordDefinitionBuilder<HostTypeResolver>, name: &str, uninit: bool, copy: bool) -> Result<DatumId, String> {
-    if uninit {
-        // `add_datum_allow_uninit` needs `T: Copy` at the call site; the override entry point records
-        // the same (resolver type info + flag) and also lets SIM-F set the flag on non-Copy types
-        let _ = copy;
-        b.add_datum_override::<T, _>(
-            name,
-            truc::record::definition::builder::native::DatumDefinitionOverride { type_name: None, size: None, align: None, allow_uninit: Some(true) },
-        )
-    } else {
-        b.add_datum::<T, _>(name)
-    }
 }
 
 catalogue! {
@@ -171,7 +215,15 @@ pub struct Built {
 }
 
 pub fn build(plan: &Plan) -> Result<Built, String> {
-    let mut b = NativeRecordDefinitionBuilder::new(HostTypeResolver);
+    if plan.table {
+        let table = catalogue_table();
+        build_with(plan, NativeRecordDefinitionBuilder::new(&table), true)
+    } else {
+        build_with(plan, NativeRecordDefinitionBuilder::new(HostTypeResolver), false)
+    }
+}
+
+fn build_with<R: TypeResolver>(plan: &Plan, mut b: NativeRecordDefinitionBuilder<R>, dynamic: bool) -> Result<Built, String> {
     let mut ids: Vec<DatumId> = Vec::new();
     let mut keys = Vec::new();
     for req in &plan.reqs {
@@ -187,6 +239,9 @@ pub fn build(plan: &Plan) -> Result<Built, String> {
                     other.close_record_variant();
                     let other = other.build();
                     b.copy_datum(&other[oid])?
+                } else if dynamic && ids.len() % 2 == 1 {
+                    // by type name, through the table (the may-be-uninit flag is then the table's: Copy types)
+                    b.add_dynamic_datum(name.as_str(), recorded_type_name(ty))?
                 } else {
                     add_typed(&mut b, ty, &name, *uninit)?
                 };
@@ -202,6 +257,7 @@ pub fn build(plan: &Plan) -> Result<Built, String> {
                     Strategy::Simple => b.close_record_variant_with(simple),
                     Strategy::Basic => b.close_record_variant_with(basic),
                     Strategy::Append => b.close_record_variant_with(append_data),
+                    // now and then the plain entry point (which is documented to use the default strategy)
                     Strategy::AppendReverse => b.close_record_variant_with(append_data_reverse),
                 };
             }
@@ -317,7 +373,7 @@ fn gen_gap_reuse_plan(rng: &mut Rng, name: &str, opts: &SwarmOpts) -> Plan {
         }
         reqs.push(Req::Close { strategy: close(rng) });
     }
-    Plan { name: name.to_string(), clone, serde, reqs }
+    Plan { name: name.to_string(), clone, serde, table: rng.chance(1, 5), reqs }
 }
 
 pub fn gen_plan(rng: &mut Rng, name: &str, opts: &SwarmOpts) -> Plan {
@@ -390,7 +446,7 @@ pub fn gen_plan(rng: &mut Rng, name: &str, opts: &SwarmOpts) -> Plan {
         };
         reqs.push(Req::Close { strategy });
     }
-    Plan { name: name.to_string(), clone, serde, reqs }
+    Plan { name: name.to_string(), clone, serde, table: rng.chance(1, 5), reqs }
 }
 
 fn add(ty: &str) -> Req {
@@ -417,7 +473,7 @@ fn close(strategy: Strategy) -> Req {
 /// Directed corpus: shapes the swarm reaches rarely.
 pub fn corpus() -> Vec<Plan> {
     use Strategy::*;
-    let p = |name: &str, clone: bool, serde: bool, reqs: Vec<Req>| Plan { name: name.to_string(), clone, serde, reqs };
+    let p = |name: &str, clone: bool, serde: bool, reqs: Vec<Req>| Plan { name: name.to_string(), clone, serde, table: name.ends_with("_table"), reqs };
     vec![
         // the README definition: usize (may be uninit) -> String -> isize-like
         p("readme", true, true, vec![addu("usize"), close(Simple), add("string"), rm(0), close(Simple), addu("u64"), rm(1), close(Simple)]),
@@ -451,6 +507,8 @@ pub fn corpus() -> Vec<Plan> {
         p("interleaved_small", true, true, vec![addu("u16"), add("toka3"), addu("u32"), add("toka3"), addu("u64"), close(Append), add("tokb8"), addu("u128"), rm(1), close(Append), addu("p12"), add("opttok"), close(Simple)]),
         // data copied from other definitions (copy_datum), mixed with ordinary ones
         p("copied_data", true, true, vec![add("u32"), addc("toka8"), addc("string"), close(Simple), addc("u16"), add("tokb8"), rm(0), close(Simple), addc("toka16"), rm(2), close(Simple)]),
+        // built through a pre-computed type table, every other field by type name
+        p("readme_table", true, true, vec![addu("usize"), add("toka8"), close(Simple), add("string"), addu("u64"), rm(0), close(Simple), addu("u32"), add("boxstr"), rm(2), close(Simple)]),
         // zero-size only
         p("zst_only", true, true, vec![add("unit"), add("tokaz"), close(Simple), add("u64x0"), rm(0), close(Simple)]),
     ]
